@@ -83,6 +83,9 @@ func genTree(r *Rand, depth, maxDepth int, budget *int) TNode {
 	t := TNode{Kind: "nt"}
 	if r.Chance(1, 8) {
 		t.Kind = "walkable"
+	} else if depth > 0 && r.Chance(1, 14) {
+		// a list of alternatives nested below the root (Walkable: only its first element is walked)
+		t.Kind = "list"
 	}
 	n := r.Range(1, 4)
 	if t.Kind == "nt" {
@@ -143,8 +146,8 @@ func (t *TNode) valid(root bool) error {
 		}
 	case "walkable":
 	case "list":
-		if !root || len(t.Kids) == 0 {
-			return fmt.Errorf("list must be a non-empty root")
+		if len(t.Kids) == 0 {
+			return fmt.Errorf("list must not be empty")
 		}
 	case "nt":
 		switch t.Interp {
